@@ -118,6 +118,11 @@ pub fn gen_cfg(prop: &str, rng: &mut Rng) -> GenCfg {
         c.max_depth = 2;
         return c;
     }
+    if crate::driver::MIRI_PLANS.load(Ordering::Relaxed) {
+        c.max_sys = 6;
+        c.max_depth = 2;
+        return c;
+    }
     match prop {
         "C04" => {
             c.big = rng.chance(1, 25);
@@ -496,10 +501,33 @@ pub fn eval_run(sc: &Scenario, b: &Built, ro: &RunOut, overlap_pairs: &mut u64) 
     out
 }
 
+/// What a panic of the identification dispatch means.
+pub fn ident_violations(layout: &crate::build::Layout) -> Vec<Violation> {
+    let mut out = Vec::new();
+    if let Some(p) = &layout.ident_panic {
+        // the generator guarantees that every resource a system fetches is either in the world
+        // from the start or declared through a default-providing accessor by somebody: after
+        // `Dispatcher::setup` a sequential dispatch can only miss a resource if setup did
+        let first = p.lines().next().unwrap_or("").to_string();
+        if p.contains("missing-resource") || p.contains("Tried to fetch resource") {
+            out.push(Violation { prop: "C13".into(), class: "resource-missing-after-setup".into(), msg: format!("the first sequential dispatch after Dispatcher::setup panicked: {}", first) });
+        } else if crate::util::is_borrow_panic(p) {
+            out.push(Violation { prop: "C01".into(), class: "borrow-panic".into(), msg: format!("the first sequential dispatch after Dispatcher::setup panicked with a borrow conflict: {}", first) });
+        } else {
+            out.push(Violation { prop: "C04".into(), class: "dispatch-panicked".into(), msg: format!("the first sequential dispatch after Dispatcher::setup panicked without an injected fault: {}", first) });
+        }
+    }
+    out
+}
+
 /// Static checks on the built structure (shape sums, setup), independent of any run.
 pub fn eval_static(b: &Built) -> Vec<Violation> {
     let mut out = Vec::new();
     let infos = &b.ctx.infos;
+    let iv = ident_violations(&b.layout);
+    if !iv.is_empty() {
+        return iv;
+    }
     if !b.layout.shape_ok {
         for p in &b.layout.problems {
             out.push(Violation { prop: "C04".into(), class: "shape-sum".into(), msg: p.clone() });
@@ -894,6 +922,31 @@ fn push_found(prop: &str, found: &mut Vec<Replay>, st: &mut Stats, v: &Violation
 }
 
 /// Explore one seed for property `prop`. Returns the first violation of each class.
+/// Under the Miri tier the schedule is Miri's: one run per distinct (scenario variant, mode),
+/// no rendezvous directives.
+fn miri_cut(plan: Vec<Planned>) -> Vec<Planned> {
+    if !crate::driver::MIRI_PLANS.load(Ordering::Relaxed) {
+        return plan;
+    }
+    let mut seen: Vec<(String, &'static str)> = Vec::new();
+    let mut out = Vec::new();
+    for p in plan {
+        if p.sc.faults.iter().any(|f| f.kind == FaultKind::Rendezvous) {
+            continue;
+        }
+        let key = (serde_json::to_string(&p.sc).unwrap(), p.mode);
+        if seen.contains(&key) {
+            continue;
+        }
+        seen.push(key);
+        out.push(p);
+        if out.len() >= 3 {
+            break;
+        }
+    }
+    out
+}
+
 pub fn explore(prop: &str, seed: u64, thorough: bool, st: &mut Stats) -> Vec<Replay> {
     let sc = gen_for(prop, seed);
     st.scenarios += 1;
@@ -918,7 +971,7 @@ pub fn explore(prop: &str, seed: u64, thorough: bool, st: &mut Stats) -> Vec<Rep
     for v in eval_static(&b) {
         push_found(prop, &mut found, st, &v, || mk_replay(prop, seed, &sc, "static", &StratSpec::NoPreempt, 0, None, 0, &v));
     }
-    let plan = plan_runs(prop, &sc, &b.ctx.infos, &b.layout, thorough, &mut rng);
+    let plan = if b.layout.ident_panic.is_some() { vec![] } else { miri_cut(plan_runs(prop, &sc, &b.ctx.infos, &b.layout, thorough, &mut rng)) };
     for p in plan {
         if crate::driver::past_deadline() {
             break;
@@ -994,7 +1047,16 @@ fn explore_async(prop: &str, seed: u64, sc: &Scenario, thorough: bool, st: &mut 
         st.samples.push(json!({"seed": seed, "async_ops": sc.aops, "executed_layout": b.layout.canonical(), "pool": sc.pool, "registration_sequence": sc.regs}));
     }
     let infos = b.ctx.infos.clone();
-    let plan = plan_runs(prop, sc, &infos, &b.layout.clone(), thorough, rng);
+    let iv = ident_violations(&b.layout);
+    if !iv.is_empty() {
+        // the synchronous twin of the plan could not even be dispatched once after setup
+        for v in &iv {
+            push_found(prop, found, st, v, || mk_replay(prop, seed, sc, "static", &StratSpec::NoPreempt, 0, None, 0, v));
+        }
+        crate::afamily::dispose_async(b);
+        return;
+    }
+    let plan = miri_cut(plan_runs(prop, sc, &infos, &b.layout.clone(), thorough, rng));
     for p in plan {
         let has_rdv = p.sc.faults.iter().any(|f| f.kind == FaultKind::Rendezvous);
         *CUR.lock().unwrap() = Some((serde_json::to_value(&p.sc).unwrap(), "run".to_string(), p.strat.clone(), p.rs, seed, has_rdv));
@@ -1054,7 +1116,7 @@ pub struct EvalOut {
 pub fn eval_replay(r: &Replay) -> EvalOut {
     let sc: Scenario = serde_json::from_value(r.scenario.clone()).expect("scenario");
     #[cfg(feature = "sim")]
-    if sc.asyncd {
+    if sc.asyncd && r.mode != "static" {
         let mut b = crate::afamily::build_async(&sc);
         let o = crate::afamily::eval_async_on(&mut b, &sc, &r.strategy, r.run_seed, r.trace.clone());
         crate::afamily::dispose_async(b);
